@@ -83,7 +83,20 @@ def case_same_text():
     return {'main': t}
 
 
-CASES = {'single': case_single, 'two-files': case_two_files, 'same-text': case_same_text}
+def case_two_metamodels():
+    """the imported file belongs to another registered language (pattern *.m2), i.e. to another metamodel"""
+    lib = Text()
+    lib.add('package lp { class lc; class ld uses ').ref('lc', 'lc').add(', ').ref('lp.lc', 'lc').add('; class le base ')
+    lib.ref('ld', 'ld').add('; }')
+    main = Text()
+    main.add('import "lib.m2"\npackage mp {\n class mc base ').ref('lp.lc', 'lc').add(';\n class md uses ')
+    main.ref('mc', 'mc').add(',').ref('lp.ld', 'ld').add('; }')
+    return {'main': main, 'lib.m2': lib}
+
+
+CASES = {'single': case_single, 'two-files': case_two_files, 'same-text': case_same_text,
+         # editor support switched on for one of the two metamodels only
+         'two-metamodels-lib-tools': case_two_metamodels, 'two-metamodels-main-tools': case_two_metamodels}
 
 
 def qualified(o):
@@ -104,7 +117,14 @@ def run(c, case, max_attempts):
     for fn, t in texts.items():
         with open(os.path.join(tmpd, fn), 'w') as f:
             f.write(t.text())
-    mm = metamodel_from_str(GRAMMAR, textx_tools_support=True)
+    tools = {'main': case != 'two-metamodels-lib-tools', 'lib': case != 'two-metamodels-main-tools'}
+    mm = metamodel_from_str(GRAMMAR, textx_tools_support=tools['main'])
+    mm_lib = None
+    if case.startswith('two-metamodels'):
+        import textx.registration as REG
+        mm_lib = metamodel_from_str(GRAMMAR, textx_tools_support=tools['lib'])
+        REG.clear_language_registrations()
+        REG.register_language(REG.LanguageDesc('c34lib', pattern='*.m2', description='x', metamodel=lambda: mm_lib))
     inner = P.FQNImportURI()
     attempts = {}
     sched = []
@@ -123,6 +143,8 @@ def run(c, case, max_attempts):
                 return Postponed()
             return inner(obj, attr, obj_ref)
     mm.register_scope_providers({'*.*': Prov()})
+    if mm_lib is not None:
+        mm_lib.register_scope_providers({'*.*': Prov()})
     problems = []
     try:
         try:
@@ -140,6 +162,8 @@ def run(c, case, max_attempts):
             if m is None:
                 problems.append('model of %s not found' % fn)
                 continue
+            if not m._tx_metamodel.textx_tools_support:
+                continue            # no editor support asked for this file's metamodel
             lst = getattr(m, '_pos_crossref_list', None)
             if lst is None:
                 problems.append('%s has no _pos_crossref_list' % fn)
@@ -206,6 +230,9 @@ def run(c, case, max_attempts):
             except OSError:
                 pass
         os.rmdir(tmpd)
+        if mm_lib is not None:
+            import textx.registration as REG
+            REG.clear_language_registrations()
     return ('bad' if problems else 'ok', problems, sched)
 
 
